@@ -270,6 +270,7 @@ def canaries(chk, prog):
 RECURSIVE_ENTRIES = {"madgwick.py::Madgwick.updateIMU", "madgwick.py::Madgwick.updateMARG", "mahony.py::Mahony.updateIMU",
                      "mahony.py::Mahony.updateMARG", "ekf.py::EKF.update", "ukf.py::UKF.update", "aqua.py::AQUA.updateIMU",
                      "aqua.py::AQUA.updateMARG", "fourati.py::Fourati.update", "roleq.py::ROLEQ.update", "roleq.py::ROLEQ.oleq",
+                     "roleq.py::ROLEQ.attitude_propagation",      # discharges the assumption "q_omega is unit" under which ROLEQ.oleq's dropout arm returns it
                      "fkf.py::FKF.kalman_update"}
 
 
